@@ -164,7 +164,7 @@ def explore(modname, tier, seed):
     prop.tier = tier
     seeds = list(prop.seeds(tier))
     depth = prop.depth(tier)
-    agg = core.new_agg()
+    agg = core.new_agg(prop.ID)
     caps = []
     seen = set()
     frontier = [(i, [], None) for i in range(len(seeds))]
